@@ -105,7 +105,7 @@ static inline _Bool SiteMap_wf(SiteMap *m)
     __CPROVER_assume(sqz[_k] == sqz[(_k) + 1] + (SM_spin(_k) > (_z) ? (unsigned long)SM_orb(_k) : 0UL)); \
     __CPROVER_assume(sqz[_k] <= SM_TOTAL_MAX); }
 #ifdef SM_NO_SQ     /* harnesses that do not use the layer sums sqZ compile them out (fewer array reads) */
-#define SM_AX_SQ(_k) ((void)0)
+#define SM_AX_SQ(_k) { }
 #else
 #define SM_AX_SQ(_k) { SM_AX_Z(_k, SM_sq0, 0) SM_AX_Z(_k, SM_sq1, 1) SM_AX_Z(_k, SM_sq2, 2) SM_AX_Z(_k, SM_sq3, 3) }
 #endif
@@ -131,21 +131,35 @@ static inline _Bool SiteMap_wf(SiteMap *m)
 #define SM_IT_CURSOR(it) (it).pair, (it).cur
 #define SiteMapIt_mul(it) SiteMapIt_arrow(it)
 /* find: the position of the key (A3), end() if absent */
-#define SiteMap_find(m_, l_) (*(__CPROVER_assume(0 <= SITEPOS(l_) && SITEPOS(l_) <= (m_)->n), \
-  __CPROVER_assume(SITEPOS(l_) >= (m_)->n || SM_label(SITEPOS(l_)) == (l_)), \
-  (SiteMapIt[1]){ { (m_), SITEPOS(l_) } }))        /* an lvalue: callers take its address */
+static inline SiteMapIt SiteMap_find_f(SiteMap *m, label_t l)
+{
+  long p = SITEPOS(l);
+  __CPROVER_assume(0 <= p && p <= m->n);
+  if (p < m->n) __CPROVER_assume(SM_label(p) == l);
+  SiteMapIt it = { m, p };
+  return it;
+}
+#define SiteMap_find(m_, l_) (*(SiteMapIt[1]){ SiteMap_find_f((m_), (l_)) })        /* an lvalue: callers take its address */
+struct Lattice_Site *SM_ins_slot; label_t SM_ins_label; unsigned long SM_ins_calls;     /* used by the insert model only */
 #ifdef SM_INSERT_MODEL
 /* operator[] as used by Lattice::addSite (`Sites[label] = S`): the reference to the mapped pointer of `label`,
  * inserted if absent: ONE cell, the key is recorded (ASSUMED: std::map::operator[] returns the cell of that key) */
-struct Lattice_Site *SM_ins_slot; label_t SM_ins_label; unsigned long SM_ins_calls;
 #define SiteMap_at(m_, l_) (SM_ins_label = (l_), SM_ins_calls++, &SM_ins_slot)
 #else
 /* operator[]: reference to the mapped pointer (a temporary cell holding &SM_site[position]) */
-#define SiteMap_at(m_, l_) ({ \
-  __CPROVER_assume(0 <= SITEPOS(l_) && SITEPOS(l_) <= (m_)->n); \
-  __CPROVER_assert(SITEPOS(l_) < (m_)->n, "std::map operator[] used only with an existing key (else it inserts a null Site*)"); \
-  if (SITEPOS(l_) < (m_)->n) { __CPROVER_assume(SM_label(SITEPOS(l_)) == (l_)); SM_ASSUME_AT((m_), SITEPOS(l_)) } \
-  &(struct Lattice_Site *){ SITEPOS(l_) < (m_)->n ? &(struct Lattice_Site[1]){ SM_site[SITEPOS(l_)] }[0] : (struct Lattice_Site *)0 }; })
+static inline struct Lattice_Site *SiteMap_at_p(SiteMap *m, label_t l, struct Lattice_Site *buf)
+{
+  long p = SITEPOS(l);
+  __CPROVER_assume(0 <= p && p <= m->n);
+  __CPROVER_assert(p < m->n, "std::map operator[] used only with an existing key (else it inserts a null Site*)");
+  if (p >= m->n) return (struct Lattice_Site *)0;
+  __CPROVER_assume(SM_label(p) == l);
+  SM_ASSUME_AT(m, p)
+  *buf = SM_site[p];
+  return buf;
+}
+/* a plain expression (temporaries of a statement expression would be dead when the caller dereferences) */
+#define SiteMap_at(m_, l_) (&(struct Lattice_Site *){ SiteMap_at_p((m_), (l_), (struct Lattice_Site[1]){ { 0 } }) })
 #endif
 
 /* proof of lemma L1 by induction over k = n..0 (checked by CBMC: harness h_lemma_sitemap_sqsum in specs/indexclass.c) */
